@@ -28,15 +28,17 @@ import (
 // Workload: 3 jobs with recording interval triggers (20/30/40 ms), RetryInterval 50 ms, a fixed script of API calls.
 //
 //	single  the k-th queue call (k = 0..119, loop-side and API calls counted together) fails / is delayed
-//	burst   all calls of a set of operations fail / are slow for 400 ms while jobs are due; the loop-side calls inside
-//	        the window are counted (the code before the repair made ~150 000 calls in 500 ms)
+//	burst   all calls of a set of operations fail / are slow for 400 ms (or 60 ms, so that the back-off is still running
+//	        when the faults stop) while jobs are due; the loop-side calls inside the window are counted (the code
+//	        before the repair made ~150 000 calls in 500 ms)
 //	random  seeded mix: every call fails / is slow with some probability, random API calls in between
 //
 // Judged per plan: no panic and no hang (each plan runs in a supervised child process), every API call returns within
 // 2 s, an API call returns an error that errors.Is the injected one exactly when one of its own queue calls was made
 // to fail, no fire time handed out by a trigger is consumed twice and no job runs more often than fire times were
 // consumed, at most fqBurstLimit loop-side calls per burst window, and once the faults stop every job that is still
-// stored in the (inner) queue and not paused runs again within 1 s.
+// stored in the (inner) queue and not paused runs again within 1 s — although the harness keeps scheduling unrelated
+// far-future jobs every 15 ms during that time (API traffic, i.e. interrupt tokens, must not postpone the recovery).
 
 func init() { commands["faults"] = faultsRun }
 
@@ -62,6 +64,14 @@ type fqPlan struct {
 	Seed   int64    `json:"seed,omitempty"`
 	PFail  float64  `json:"pfail,omitempty"`
 	PDelay float64  `json:"pdelay,omitempty"`
+	WinMs  int      `json:"win_ms,omitempty"` // burst window, default fqBurstWin
+}
+
+func (p fqPlan) win() time.Duration {
+	if p.WinMs > 0 {
+		return time.Duration(p.WinMs) * time.Millisecond
+	}
+	return fqBurstWin
 }
 
 func (p fqPlan) String() string {
@@ -69,7 +79,7 @@ func (p fqPlan) String() string {
 	case "single":
 		return fmt.Sprintf("plan %d: queue call number %d %ss", p.ID, p.Index, p.Mode)
 	case "burst":
-		return fmt.Sprintf("plan %d: every %s-side %s call %ss for %v", p.ID, p.Side, strings.Join(p.Ops, "/"), p.Mode, fqBurstWin)
+		return fmt.Sprintf("plan %d: every %s-side %s call %ss for %v", p.ID, p.Side, strings.Join(p.Ops, "/"), p.Mode, p.win())
 	}
 	return fmt.Sprintf("plan %d: random faults seed %d (fail %.2f, delay %.2f, ops %s, side %s)", p.ID, p.Seed, p.PFail, p.PDelay, strings.Join(p.Ops, "/"), p.Side)
 }
@@ -142,7 +152,7 @@ func (q *fqQueue) before(op string) bool {
 				fault = q.plan.Mode
 			}
 		case "burst":
-			if inOps && sideOK && !q.t0.IsZero() && time.Since(q.t0) < fqBurstWin {
+			if inOps && sideOK && !q.t0.IsZero() && time.Since(q.t0) < q.plan.win() {
 				fault = q.plan.Mode
 			}
 		case "random":
@@ -278,7 +288,13 @@ type fqReport struct {
 	Consumed    int            `json:"consumed"`
 	Stored      int            `json:"stored_after_faults"`
 	RecoveredMs float64        `json:"recovered_ms"`
+	Traffic     int            `json:"traffic_calls_during_recovery"`
 }
+
+type fqNop struct{}
+
+func (fqNop) Execute(context.Context) error { return nil }
+func (fqNop) Description() string           { return "traffic" }
 
 type fqHarness struct {
 	q    *fqQueue
@@ -390,7 +406,7 @@ func fqRunPlan(plan fqPlan) (rep fqReport) {
 			script = append(script, m)
 		}
 	case "burst":
-		phase = 60*time.Millisecond + fqBurstWin // no API calls during the burst: every one of them is an interrupt
+		phase = 60*time.Millisecond + plan.win() // no API calls during the burst: every one of them is an interrupt
 	case "random":
 		for i := 0; i < 6+r.Intn(6); i++ {
 			m := menu[r.Intn(len(menu))]
@@ -446,13 +462,26 @@ func fqRunPlan(plan fqPlan) (rep fqReport) {
 		}
 		return p
 	}
+	// API traffic while the loop recovers: every successful ScheduleJob sends an interrupt token
+	traffic, nextTraffic := 0, time.Now()
 	for len(pending()) > 0 && time.Since(mark) < fqRecover+fqWatch {
+		if !time.Now().Before(nextTraffic) {
+			traffic++
+			name := fmt.Sprintf("traffic%d", traffic)
+			if _, hung := h.fqDriver("ScheduleJob("+name+")", func() error {
+				return s.ScheduleJob(quartz.NewJobDetail(&fqNop{}, quartz.NewJobKey(name)), quartz.NewSimpleTrigger(time.Hour))
+			}); hung {
+				return rep
+			}
+			nextTraffic = time.Now().Add(15 * time.Millisecond)
+		}
 		time.Sleep(time.Millisecond)
 	}
+	rep.Traffic = traffic
 	rec := time.Since(mark)
 	rep.RecoveredMs = float64(rec.Microseconds()) / 1000
 	if p := pending(); len(p) > 0 {
-		rep.Violations = append(rep.Violations, fmt.Sprintf("C15 no recovery: job(s) %v were stored in the queue when the faults stopped and did not run within %v (%s)", p, fqRecover+fqWatch, plan))
+		rep.Violations = append(rep.Violations, fmt.Sprintf("C15 no recovery: job(s) %v were stored in the queue when the faults stopped and did not run within %v, during which %d unrelated jobs were scheduled (one every 15 ms) (%s)", p, fqRecover+fqWatch, traffic, plan))
 	} else if rec > fqRecover {
 		rep.Soft = append(rep.Soft, fmt.Sprintf("C15 slow recovery: the stored jobs needed %v to run again after the faults stopped, limit %v (%s)", rec, fqRecover, plan))
 	}
@@ -476,14 +505,14 @@ func fqRunPlan(plan fqPlan) (rep fqReport) {
 			}
 			rep.Hit[side+"/"+c.op+"/"+c.fault]++
 		}
-		if plan.Kind == "burst" && c.loop && !q.t0.IsZero() && c.at.After(q.t0) && c.at.Before(q.t0.Add(fqBurstWin)) {
+		if plan.Kind == "burst" && c.loop && !q.t0.IsZero() && c.at.After(q.t0) && c.at.Before(q.t0.Add(plan.win())) {
 			rep.BurstCalls++
 		}
 	}
 	q.mu.Unlock()
 	if plan.Kind == "burst" && rep.BurstCalls > fqBurstLimit {
 		rep.Violations = append(rep.Violations, fmt.Sprintf("C15 busy loop: %d loop-side queue calls within %v while the queue was failing (RetryInterval %v allows about %d; limit %d) (%s)",
-			rep.BurstCalls, fqBurstWin, fqRetry, 2*int(fqBurstWin/fqRetry), fqBurstLimit, plan))
+			rep.BurstCalls, plan.win(), fqRetry, 2*int(plan.win()/fqRetry)+2, fqBurstLimit, plan))
 	}
 	// fire times
 	for name, t := range h.trs {
@@ -570,8 +599,12 @@ func faultsRun(args []string) int {
 			add(fqPlan{Kind: "burst", Mode: mode, Ops: ops, Side: "loop"})
 		}
 	}
-	add(fqPlan{Kind: "burst", Mode: "fail", Ops: []string{"pop"}, Side: "loop", Seed: 1})
-	add(fqPlan{Kind: "burst", Mode: "fail", Ops: []string{"pop"}, Side: "loop", Seed: 2})
+	// short bursts: the faults stop while the back-off is running; recovery must not wait for the API traffic to end
+	for _, ops := range [][]string{{"pop"}, {"push"}, {"pop", "push"}, {"size", "head", "pop", "push"}} {
+		for _, w := range []int{30, 60, 90} {
+			add(fqPlan{Kind: "burst", Mode: "fail", Ops: ops, Side: "loop", WinMs: w})
+		}
+	}
 	opsets := [][]string{nil, {"pop", "push"}, {"size", "head"}, {"push", "remove", "get"}, {"pop"}, {"push"}, {"get", "remove", "clear", "list"}}
 	for k := 0; k < *n/2; k++ {
 		add(fqPlan{Kind: "random", Mode: "mixed", Seed: r.Int63n(1 << 40), PFail: []float64{0.05, 0.2, 0.5, 0.9}[r.Intn(4)], PDelay: []float64{0, 0.05, 0.2}[r.Intn(3)],
